@@ -1,37 +1,115 @@
 """Regenerates MANIFEST.json from the table below (keeps it valid at all times)."""
 import json
+
 props = [json.loads(l) for l in open('/verif/properties.jsonl')]
 BASELINE = "cd /repo && /venv/bin/python -m pytest -ra -q -p no:cacheprovider --timeout=900 --continue-on-collection-errors"
-PROOF_NOTE = ("Assumed: pyvc (the VC generator) is unverified; floats as reals unless tagged fp64; library models "
-              "(numpy/builtins) listed in evidence.coverage.trusted_base; callee contracts are used at call sites "
-              "(each callee is verified against its own contract under the properties that list it).")
+COMMON = ("Assumed throughout: the VC generator pyvc is itself unverified; machine floats are mathematical reals; numpy / "
+          "builtins / multiprocessing / sklearn calls are replaced by the assumed contracts listed in evidence.coverage.trusted_base; "
+          "a caller is checked against its callees' contracts (each callee is verified against its own contract by the checks of "
+          "the properties that list it). ")
+TECH = "contract-based deductive verification of the real source: Python ast -> symbolic execution -> named obligations -> z3 (cvc5 second opinion); sidecar contracts, loop invariants, frame conditions, ghost state"
+
 CLAIMS = {
- 'C01': dict(text="Deductive: the real kernel body is symbolically executed against a contract whose loop invariants are the "
-             "Bellman attainment/lower-bound facts (for all T, K, real tables, scalar and vector beta); code-independent "
-             "induction lemmas (base+step) derive 'reported cost = total of returned path' and 'minimum over all K^T sequences' "
-             "from the contract text. Unbounded in T and K.", ref="4/C01",
-             note=PROOF_NOTE + " Numba-compiled execution is covered only by the assumption that Numba compiles the source faithfully (C15).",
-             tech="contract-based deductive verification: AST->z3 VC generation on the real source, loop invariants, induction lemmas"),
- 'C10': dict(text="Deductive: cell-wise loop invariants of the real stacking loops, sequence contracts for split/pad, for all T, W, N, series counts.",
-             ref="4/C10", note=PROOF_NOTE + " Payload floats are modelled as reals (bit-for-bit copy follows because the only operation applied is a copy).",
-             tech="contract-based deductive verification: AST->z3 VC generation on the real source, loop invariants"),
- 'C11': dict(text="Deductive: closed-form rank, class-position lists and both compression round trips proved for ALL n, N, W (not only the enumerated range).",
-             ref="4/C11", note=PROOF_NOTE + " np.triu_indices is an assumed contract (row-major enumeration); np.sqrt exact on perfect squares.",
-             tech="contract-based deductive verification: AST->z3 VC generation on the real source"),
+ 'C01': ("Proof for all T, K, real cost tables and both beta forms: the kernel's loop invariants are the Bellman attainment / lower-bound facts; "
+         "code-independent induction lemmas (base and step as separate queries, hypotheses taken mechanically from the contract text) give "
+         "'reported cost = total of the returned path' and 'minimum over all K^T sequences'. predict_cluster_labels carries the same facts to the "
+         "model state.", "4/C01",
+         "Numba-compiled execution is covered only by the assumption that Numba compiles the supported subset faithfully (C15). Brute force over "
+         "all K^T sequences (T<=6, K<=4) runs as a bounded stand-in and is not counted."),
+ 'C02': ("Proof of the conditional clause, function by function: soft_threshold_prox is the exact minimiser of the class problem (nonlinear real "
+         "arithmetic, all z); the Z-step puts that value on every occurrence of every Toeplitz class (three nested loop invariants over the real "
+         "code, class positions pairwise distinct proved as a lemma); the X-step's eigenvalue map solves rho*e - 1/e = d with e > 0; the dual "
+         "update and the rho-rescaling keep rho*u; the loop returns the x of the very round whose stopping rule fired, with primal and dual "
+         "residuals within the tolerances computed by check_convergence and Z exactly block-Toeplitz.", "4/C02",
+         "np.linalg.eigh, the matrix product and spectral calculus are assumed (uninterpreted); convexity => KKT sufficiency is mathematics not "
+         "re-proved. The unconditional clause (always stops within the budget for well-conditioned input) is a convergence-rate statement: "
+         "NOT decided by contracts, bounded stand-in only. Matrix-valued lambda: Lambda_class and frame conditions proved, the class-value "
+         "invariant of the Z-step only for the scalar form."),
+ 'C03': ("Proof of: exact symmetry of every re-inflated matrix (cell-wise, for all n), exactness of the floor filter (comparisons only), finite "
+         "log-determinant at the three sites (slogdet; np.linalg.det is modelled with its IEEE underflow clause, which is what refuted the "
+         "original log(det(.)) code), per-eigenvalue positivity over the reals.", "4/C03",
+         "Positive definiteness after LAPACK rounding and positivity of the eigenvalue formula in IEEE arithmetic for |d| >~ 1e8 are NOT decided "
+         "(real arithmetic); bounded run-time checks only. is_spd of the assembled matrix is an uninterpreted predicate linked to the "
+         "per-eigenvalue facts by the assumed spectral calculus."),
+ 'C04': ("Proof for all T, W, N, K and any number of series: sequence contracts of pad/split/stack, result assembly in fit_stacked_data and both "
+         "front ends (label count, exact margins, K MRFs, echoes), unequal series lengths via prefix sums.", "4/C04",
+         "GaussianMixture returning one label in [0,K) per row is an assumed contract."),
+ 'C05': ("Proof that table entries and per-point values are 0.5*(logdet - quadratic form - NW ln 2pi) of exactly the point, the cluster's mean "
+         "and the cluster's MRF, and that log-determinants are finite (slogdet).", "4/C05",
+         "The quadratic form (operator @), ln and slogdet are uninterpreted functions of the right operands: the proof is of formula structure and "
+         "data flow, not of floating-point accuracy; JIT execution by assumption (C15)."),
+ 'C06': ("Proof of list lengths (one entry per point labelled k, via a counting function), concatenation, sum/mean/median taken over exactly those "
+         "lists (0 for an empty cluster), cost == kernel cost, copies in the multi-series result.", "4/C06",
+         "Known finding (open): for joint runs the switching cost is also charged on series-boundary pairs (same call site as C07)."),
+ 'C07': ("Proof for all tuples of lengths that the mask has its zeros exactly at the boundary pairs (after the fix), that stacking never crosses a "
+         "series (C10), that the joint result is split by the stacked lengths.", "4/C07",
+         "Known finding (open): the masked vector never reaches the main loop (data-flow obligation on ticc_joint_labels fails; repairing it "
+         "changes pinned regression values)."),
+ 'C08': ("Proof of: the donor decision procedure (first candidate, >= 2m, stays iff >= 3m), ranking (exactly the clusters with >= 2m points, "
+         "ordered by decreasing covariance norm), the sampled points move from the donor to the recipient and nothing else changes, labels stay in "
+         "range, points move only from a 2m-donor into an under-populated cluster, identity when nothing is under-populated, the caller's state is "
+         "never modified (also when RuntimeError is raised).", "4/C08",
+         "Size accounting after a move (recipient has >= m, donor keeps >= m, exactly m per refill) needs a counting argument over the relabelled "
+         "points: bounded run-time check only (all size vectors K<=5 sampled), NOT counted as proved. random.sample and sorted are assumed contracts."),
+ 'C09': ("Proof over the real loop with every phase replaced by its contract: 1 <= rounds <= limit, early exit only when the labelling equals the "
+         "previous round's, labels/cost/MRFs returned are those of the final state, the final state was scored last; a ghost typestate on the model "
+         "state makes 'repopulate only from round 2, then statistics, then MRFs, then relabel' a chain of call preconditions.", "4/C09",
+         "Typestate tags are definitional ghost clauses of the phase contracts. 'every cluster owns a point' at the statistics phase is a "
+         "run-completes assumption (the callee asserts it)."),
+ 'C10': ("Proof for all T, W, N and any number of series of the cell equation of stacking, row offsets of the concatenation, and the "
+         "split/pad round trip.", "4/C10", "Payload floats are reals (a copy is the only operation applied to them)."),
+ 'C11': ("Proof for ALL n, N, W (not only the enumerated range): closed-form rank, both compression round trips, class position lists, positions of "
+         "distinct classes pairwise distinct.", "4/C11",
+         "np.triu_indices is an assumed contract (row-major enumeration); np.sqrt exact on perfect squares."),
+ 'C12': ("Proof that the statistics phase fits each cluster to the rows listed in its own (correct) member list with the requested divisor, and that "
+         "task k carries cluster k's covariance, the user's lambda, W and N unchanged with the fixed solver settings.", "4/C12",
+         "np.cov / np.mean are uninterpreted functions of (rows, flag)."),
+ 'C13': ("Proof of the representation invariant (member list k == ascending list of the points labelled k, by a counting function) for "
+         "_update_cluster_membership, the setters, copies, and as postcondition of every phase; deep copies share nothing mutable; each phase's frame "
+         "excludes labelling, membership and fitted statistics of the state given.", "4/C13",
+         "The scoring phase refreshes the two derived cache fields of the state given (declared in its frame clause)."),
+ 'C14': ("Proof of the data-flow claims: cluster k of the result is a function of task k and cluster k only (gather by index), task k of cluster k; "
+         "syntactic effect obligations: no RNG / clock / pid / environment read outside the three declared sites, no module-level state written, "
+         "memoised results never mutated, no completion-order pool API.", "4/C14",
+         "multiprocessing.Pool (get() returns f(*args)), BLAS/LAPACK determinism and CPython set iteration order are assumed; real schedules are NOT "
+         "explored."),
+ 'C15': ("Side conditions only: fallback decorator is a pass-through, decorator flags (parallel=False on the sequential kernel, no fastmath), the "
+         "prange body writes only result[point, .]; the kernels' own contracts (C01, C05) then apply to every mode.", "4/C15",
+         "That Numba-compiled code behaves as its source is ASSUMED; a bounded differential run stands in."),
+ 'C16': ("Proof that the value returned is P*ln(T) - 2*sum_k(logdet - trace(Theta S)) with P the run-sum of per-cluster counts (loop invariants over "
+         "the real code) and that it is finite (slogdet).", "4/C16", "trace/dot/slogdet uninterpreted; real arithmetic."),
+ 'C17': ("Ratio and degrees-of-freedom clause proved; the centre clause of the property is REFUTED on the pinned tree and listed as a known finding "
+         "(scalar centre), with the behaviour pinned so that further drift is reported.", "4/C17",
+         "Verified for runs in which every cluster is non-empty (as the property states)."),
+ 'C18': ("Proof that the scalar forms (float, and after the fix int / NumPy scalars) give lambda*(W-b), that a matrix filled with one value gives the "
+         "same class weight over the reals, that scalar and vector beta are broadcast to the same per-pair vector.", "4/C18",
+         "Bit-identity of float summation orders is NOT claimed (real arithmetic)."),
+ 'C19': ("Frame obligation at every store site of every function on the entry paths (target fresh or named in assigns), unchanged(...) "
+         "postconditions on caller data for normal and exceptional exits, plus a syntactic whole-package scan for stores into parameters.", "4/C19",
+         "Library calls are assumed not to write their arguments; read-only acceptance by Numba is bounded only."),
+ 'C20': ("Exceptional postconditions: a worker failure is raised iff some task failed (no handler on the path: a ghost flag makes 'returns after a "
+         "failure' an obligation), RuntimeError propagates with the caller state untouched, wrong-kind input raises TypeError naming the other entry "
+         "point, the pool is closed and joined on every exit path.", "4/C20", "'never hangs' is liveness: bounded only."),
 }
+
 checks = []
-for pid, c in CLAIMS.items():
+for pid, (text, ref, note) in CLAIMS.items():
+    cat = 'other' if pid == 'C15' else 'proof'
     checks.append(dict(property_id=pid, quick_cmd="./check %s --tier quick" % pid, thorough_cmd="./check %s --tier thorough" % pid,
                        evidence_file="/verif/evidence/%s.json" % pid, replay_cmd_template="./check %s --replay {path}" % pid,
-                       engine="pyvc", level_claimed=dict(category="proof", text=c['text'], design_ref=c['ref']),
-                       level_note=c['note'], technique=c['tech']))
-na = [dict(property_id=p['id'], reason="check not yet registered in this commit (machinery under construction; see DESIGN.md section 9)")
-      for p in props if p['id'] not in CLAIMS]
+                       engine="pyvc", level_claimed=dict(category=cat, text=text, design_ref=ref),
+                       level_note=COMMON + note, technique=TECH))
+na = [dict(property_id=p['id'], reason="not registered") for p in props if p['id'] not in CLAIMS]
 m = dict(version=1, setup_cmd="./setup.sh",
-         hooks=dict(guard="FAST_TICC_VERIF", enable="no source hooks: contracts are sidecar files under /verif/contracts; run-time wrappers are substituted from /verif/native",
+         hooks=dict(guard="FAST_TICC_VERIF",
+                    enable="no source hooks: contracts are sidecar files under /verif/contracts keyed by qualified function name; "
+                           "the native run-time contract checker imports the real functions unmodified",
                     baseline_off_cmd=BASELINE, source_commits=[], add_only=True),
          engines=[dict(name="pyvc", path="/verif/pyvc", serves_properties=sorted(CLAIMS),
-                       kind_free_text="home-made deductive verifier: Python ast -> symbolic execution -> z3/cvc5 obligations; sidecar contracts; native run-time contract replay")],
+                       kind_free_text="home-made deductive verifier: Python ast -> symbolic execution over a Burstall heap -> z3 obligations; "
+                                      "sidecar contracts; native run-time contract replay under /venv/bin/python")],
          checks=checks, not_applicable=na,
-         notes="exit codes: 0 held, 1 VIOLATION, 2 UNDECIDED (never a violation), 3 checker crash")
+         notes="exit codes of ./check: 0 held, 1 VIOLATION, 2 UNDECIDED (never a violation), 3 checker crash. "
+               "Defects repaired in /repo by 'fix:' commits are listed in /verif/known_findings.json (status fixed); open findings print KNOWN-FINDING.")
 json.dump(m, open('/verif/MANIFEST.json', 'w'), indent=1)
+print(len(checks), 'checks;', len(na), 'not applicable')
